@@ -1,5 +1,6 @@
 SPECIFICATION TraceSpec
 INVARIANTS
   C08_RowsPartition
+  C08_HeightsSummarise
 POSTCONDITION TraceAccepted
 CHECK_DEADLOCK FALSE
